@@ -296,6 +296,43 @@ func runC12Malformed(c Case, res *CaseResult) {
 			a.Journal(h.VRJNAL, h.U(22), jTypStr)
 		}},
 	}
+	// systematically: every operand that is an in-word offset, out of range in each way (32, 255, and values whose low
+	// 64 bits look valid), and every operand that is a memory pointer, pointing beyond / across the end of memory or at
+	// an oversized length word - for each instruction that takes one, with its parent key properly registered
+	p2 := func(k uint) *uint256.Int { return new(uint256.Int).Lsh(h.U(1), k) }
+	for i, off := range []*uint256.Int{h.U(32), h.U(255), new(uint256.Int).Add(p2(64), h.U(3)), p2(64), new(uint256.Int).Add(p2(128), h.U(1)), p2(255)} {
+		o := off
+		bads = append(bads,
+			bad{fmt.Sprintf("vsvjnal-offset#%d", i), func(a *h.Asm) { a.MstoreName(memJ, []byte("x")).Journal(h.VSVJNAL, h.U(memJ), h.U(20), o, jTypU) }},
+			bad{fmt.Sprintf("ivvvjnal-offset#%d", i), func(a *h.Asm) {
+				a.MstoreName(memJ, []byte("m")).Journal(h.RSVJNAL, h.U(memJ), h.U(23), jTypMap)
+				a.Journal(h.IVVVJNAL, h.U(23), jMapSlot(1, 23), h.U(1), o, jTypP, jTypMap)
+			}},
+			bad{fmt.Sprintf("irvvjnal-offset#%d", i), func(a *h.Asm) {
+				a.MstoreName(memJ, []byte("arr")).Journal(h.RSVJNAL, h.U(memJ), h.U(24), jTypArr)
+				a.MstoreName(memJ+0x40, []byte("key")).Journal(h.IRVVJNAL, h.U(24), jMapSlot(7, 24), h.U(memJ+0x40), o, jTypP, jTypArr)
+			}})
+	}
+	for i, ptr := range []uint64{0x5000, memJ + 0x30, memJ + 0x20, memJ + 0x40} {
+		pp := ptr
+		prep := func(a *h.Asm, name string, slot uint64, typ *uint256.Int) {
+			a.MstoreName(memJ, []byte(name)).Journal(h.RSVJNAL, h.U(memJ), h.U(slot), typ)
+			if pp == memJ+0x20 {
+				a.PushU(0x1000).PushU(memJ + 0x20).Op(h.MSTORE) // a length word far larger than memory, in the last word
+			}
+		}
+		bads = append(bads,
+			bad{fmt.Sprintf("rsvjnal-name-pointer#%d", i), func(a *h.Asm) { prep(a, "q", 30, jTypStr); a.Journal(h.RSVJNAL, h.U(pp), h.U(31), jTypStr) }},
+			bad{fmt.Sprintf("vsvjnal-name-pointer#%d", i), func(a *h.Asm) { prep(a, "q", 30, jTypStr); a.Journal(h.VSVJNAL, h.U(pp), h.U(32), h.U(0), jTypU) }},
+			bad{fmt.Sprintf("irvvjnal-key-pointer#%d", i), func(a *h.Asm) {
+				prep(a, "arr", 24, jTypArr)
+				a.Journal(h.IRVVJNAL, h.U(24), jMapSlot(7, 24), h.U(pp), h.U(0), jTypU, jTypArr)
+			}},
+			bad{fmt.Sprintf("irvrjnal-key-pointer#%d", i), func(a *h.Asm) {
+				prep(a, "arr", 24, jTypArr)
+				a.Journal(h.IRVRJNAL, h.U(24), jMapSlot(8, 24), h.U(pp), jTypStr, jTypArr)
+			}})
+	}
 	n := int64(0)
 	for _, b := range bads {
 		for _, kind := range []byte{h.CALL, h.STATICCALL} {
@@ -419,7 +456,7 @@ func init() {
 		ID:    "C12",
 		Level: "exploration",
 		Rule: "kind pair: a generated call tree (CALL/DELEGATECALL/CALLCODE/STATICCALL frames, static and non-static, reverting and halting frames, forks Frontier..Cancun) whose frames contain register+journal gadgets using all eight journal opcodes with well-formed operands is assembled twice: P with the journal byte followed by n-1 JUMPDEST bytes, P' with n POP bytes; both run on the real VM with full step recording; result, logs, post-state and every aligned step (pc, op, depth, full stack, memory, return-data buffer) must be identical, every journal step must cost the same non-zero constant, and (runs without exceptional halts) leftover(P')-leftover(P) = sum of (fee + (n-1) - 2n); " +
-			"kind deepstack: every journal opcode at stack heights n..1024 on 3 forks must behave like its pops; kind malformed: per fork, 12 malformed operand sets (unregistered keys, offset 32, width 33, offset+width>32, huge offset, unknown parents, bad string encoding, name pointer / length / key pointer outside the frame's memory) x CALL/STATICCALL: the frame must halt with an error, use all its gas, have its effects reverted and the caller must see 0; a cross-case check requires ONE fee value over all forks; distinct_nontrivial = distinct event shapes of pairs with at least one journal step + malformed combinations",
+			"kind deepstack: every journal opcode at stack heights n..1024 on 3 forks must behave like its pops; kind malformed: per fork, 12 hand-written malformed operand sets plus, for every instruction taking an in-word offset or a memory pointer, that operand out of range in each way (32, 255, 2^64+3, 2^64, 2^128+1, 2^255; pointer beyond / across the end of memory, oversized length word) with the parent key registered (unregistered keys, offset 32, width 33, offset+width>32, huge offset, unknown parents, bad string encoding, name pointer / length / key pointer outside the frame's memory) x CALL/STATICCALL: the frame must halt with an error, use all its gas, have its effects reverted and the caller must see 0; a cross-case check requires ONE fee value over all forks; distinct_nontrivial = distinct event shapes of pairs with at least one journal step + malformed combinations",
 		Assumptions: []string{"programs are gas- and code-insensitive by construction (no GAS/CODECOPY/EXTCODE*, ample explicit call gas, no creates)", "well-formed = registered key, offset<=31, width<=32, offset+width<=32, valid string encoding (C09/C11 models)"},
 		Cases: func(seed uint64, tier string) []Case {
 			n := 400
